@@ -18,6 +18,7 @@
 package main
 
 import (
+	"fmt"
 	"math/rand"
 	"os"
 	"sort"
@@ -68,6 +69,21 @@ func main() {
 	run.ParallelRange(100000, nCross, 14, crossEndCase)
 	nVal := run.N(3000, 45000)
 	run.ParallelRange(200000, nVal, 14, validationCase)
+	nFlag := run.N(900, 12000)
+	run.ParallelRange(300000, nFlag, 14, flagCase)
+	nLit := run.N(1500, 30000)
+	run.ParallelRange(400000, nLit, 14, literalCase)
+	if err := liveSetup(); err != nil {
+		fmt.Fprintln(os.Stderr, "live server:", err)
+		os.Exit(h.ExitHarnessError)
+	}
+	nLive := run.N(24, 240)
+	run.ParallelRange(500000, nLive, 6, liveCase)
+	nChildFlags := run.N(16, 160)
+	run.ParallelRange(600000, nChildFlags, 4, childFlagCase)
+	nChildEnv := run.N(6, 60)
+	run.ParallelRange(700000, nChildEnv, 3, childEnvCase)
+	live.srv.Close()
 
 	levelMu.Lock()
 	var lv []string
